@@ -74,6 +74,43 @@ def _sql(st: str) -> str:
     raise common.Infra(f"bad statement {st}")
 
 
+def _mh(hist: list[str]) -> str:
+    """the history as the model reads it: executemany with a row the connector cannot format (`g`) = executemany of the rows
+    before it; write_pandas of one row (`p`) = that INSERT"""
+    out = []
+    for s in hist:
+        if s[0] == "g":
+            out.append("e" + s[1:])
+        elif s[0] == "p":
+            out.append("i" + s[1:])
+        else:
+            out.append(s)
+    return ";".join(out)
+
+
+def _exec(cur, conn, s: str) -> None:
+    """run one statement of a history (executemany / write_pandas are API calls, the rest is SQL)"""
+    if s[0] in "eg":
+        nums = s[1:].split(".")
+        rows = [(int(nums[i]), int(nums[i + 1])) for i in range(1, len(nums), 2)]
+        if s[0] == "g":
+            rows.append((99,))              # a short tuple: the connector raises TypeError; the application catches it and carries on
+        try:
+            cur.executemany(f"insert into t{nums[0]} (k, v) values (%s, %s)", rows)
+        except TypeError:
+            if s[0] != "g":
+                raise
+        return
+    if s[0] == "p":
+        import pandas as pd
+        import snowflake.connector.pandas_tools as pt
+        t, k, v = s[1:].split(".")
+        pt.write_pandas(conn, pd.DataFrame({"K": [int(k)], "V": [int(v)]}), f"T{t}")
+        return
+    cur.execute(_sql(s))
+    cur.fetchall()
+
+
 def _classify(sql: str) -> str:
     u = " ".join(sql.split()).upper()
     if u.startswith("BEGIN"):
@@ -154,8 +191,7 @@ def _child_history(d: str, hist: list[str], kill_at, mode: str, logfd: int) -> N
                     with conn.cursor() as cur:
                         for i, s in enumerate(hist[1:e], 1):
                             os.write(logfd, f"#{i}:".encode())
-                            cur.execute(_sql(s))
-                            cur.fetchall()
+                            _exec(cur, conn, s)
                         if mode == "raise-inside":
                             raise Boom("application error inside the with block")
                 os.write(logfd, f"#{e}:".encode())
@@ -168,8 +204,7 @@ def _child_history(d: str, hist: list[str], kill_at, mode: str, logfd: int) -> N
                     conn = snowflake.connector.connect(database="db1", schema=f"s{sc}")
                     cur = conn.cursor()
                 else:
-                    cur.execute(_sql(s))
-                    cur.fetchall()
+                    _exec(cur, conn, s)
             os.write(logfd, b"#end:")
             if mode == "raise":
                 raise Boom("application error")
@@ -393,8 +428,11 @@ def _run_point(job) -> dict:
         shutil.rmtree(d, ignore_errors=True)
 
 
-def _child_memory(hist: list[str], outfd: int) -> None:
-    """in-memory instances: no files anywhere, nothing shared between instances"""
+def _child_memory(hist: list[str], outfd: int, form: str = "none") -> None:
+    """in-memory instances: no files anywhere, nothing shared between instances.
+    `form` = how db_path is given: none (argument absent / None), empty ("" – falsy, i.e. in memory), or a storage form
+    (rel = relative path, pathobj = pathlib.Path, slash = trailing slash): then the files must be in <cwd>/data and a later
+    patch given the plain absolute path must find the tables"""
     import fakesnow
     import fakesnow.instance
     import snowflake.connector
@@ -410,7 +448,13 @@ def _child_memory(hist: list[str], outfd: int) -> None:
         cur.execute("select table_name from information_schema.tables where table_catalog = 'DB1' and table_schema = 'S1'")
         return sorted(r[0] for r in cur.fetchall())
 
-    with fakesnow.patch():
+    import pathlib
+    kw = {"none": {}, "nonearg": {"db_path": None}, "empty": {"db_path": ""}, "rel": {"db_path": "data"},
+          "pathobj": {"db_path": pathlib.Path("data")}, "slash": {"db_path": "data/"}}[form]
+    storage = form in ("rel", "pathobj", "slash")
+    if storage:
+        os.mkdir(os.path.join(cwd, "data"))
+    with fakesnow.patch(**kw):
         conn = snowflake.connector.connect(database="db1", schema="s1")
         cur = conn.cursor()
         for s in hist:
@@ -421,16 +465,20 @@ def _child_memory(hist: list[str], outfd: int) -> None:
         other = fakesnow.instance.FakeSnow()
         oc = other.connect(database="db1", schema="s1")
         out["other_simultaneous"] = tables(oc)
-    with fakesnow.patch():
+    with (fakesnow.patch(db_path=os.path.join(cwd, "data")) if storage else fakesnow.patch(**kw)):
         conn = snowflake.connector.connect(database="db1", schema="s1")
         out["later_patch"] = tables(conn)
+    out["storage"] = storage
+    if storage:
+        out["data_files"] = sorted(f for f in os.listdir(os.path.join(cwd, "data")) if f.endswith(".db"))
+        shutil.rmtree(os.path.join(cwd, "data"), ignore_errors=True)
     out["cwd_files"] = sorted(os.listdir(cwd))
     out["tmp_files"] = sorted(os.listdir(tmp))
     os.write(outfd, json.dumps(out).encode())
 
 
 def _run_memory(job) -> dict:
-    st, out = _fork(_child_memory, job["hist"])
+    st, out = _fork(lambda fd: _child_memory(job["hist"], fd, job.get("form", "none")))
     if st != 0 or b"!EXC" in out:
         return {"err": out.decode(errors="replace")[-400:]}
     return json.loads(out.decode())
@@ -575,6 +623,16 @@ def run(chk) -> None:
                 "insert_order": rnd.choice([["a", "b"], ["b", "a"]]), "commit_order": [first, "b" if first == "a" else "a"],
                 "api": ci % 2 == 0, "after": {"a": 71, "b": 72}, "exit": "kill" if ci % 3 else "clean"}
         jobs1.append({"hi": -1, "mode": "conflict", "spec": spec})
+    # executemany / write_pandas as statements of a history, in autocommit and inside transactions; all process endings
+    API = [["N11.1", "T0.-.-", "e0.1.1.2.2", "i0.3.3"],
+           ["N11.1", "T0.-.-", "g0.1.1", "i0.2.2", "u0.1.5"],             # a row fails, the error is caught, work goes on in autocommit
+           ["N11.1", "T0.-.-", "b", "e0.1.1.2.2", "c", "g0.3.3", "i0.4.4"],
+           ["N11.1", "T0.-.-", "p0.1.1", "i0.2.2"],
+           ["N11.1", "T0.-.-", "b", "i0.1.1", "p0.2.2", "i0.3.3", "r", "i0.4.4"],   # write_pandas inside a transaction that is rolled back
+           ["N11.1", "T0.-.-", "i0.9.9", "b", "i0.1.1", "p0.2.2"]]                  # … or left open at exit
+    for ah in API:
+        for mode in ("clean", "raise", "killend"):
+            jobs1.append({"hi": -1, "hist": ah, "kill": None, "mode": mode, "schema_opt": False})
     # `with connect(...) as conn:` / `with conn.cursor():` blocks that end with a transaction still open, all process endings
     WITH = [["N11.1", "T0.-.-", "b", "i0.1.1", "i0.2.2", "E"],
             ["N11.1", "T0.7.10", "i0.1.1", "b", "u0.1.5", "M0.3", "E"],
@@ -587,8 +645,8 @@ def run(chk) -> None:
         jobs1.append({"hi": -1, "mode": "repatch",
                       "spec": {"h1": ["N11.1", "T0.-.-", f"i0.1.{ri}"], "h2": ["N11.1", f"i0.2.{ri}", "T1.3.-", "i1.5.5"],
                                "exit": "kill" if ri % 2 else "clean"}})
-    jobs1.append({"hi": 0, "hist": hists[0], "mode": "memory"})
-    jobs1.append({"hi": 0, "hist": hists[2], "mode": "memory"})
+    for form in ("none", "nonearg", "empty", "rel", "pathobj", "slash"):
+        jobs1.append({"hi": 0, "hist": hists[0] if form != "nonearg" else hists[2], "mode": "memory", "form": form})
     res1 = [r for shard in common.shard_map(_worker, common.chunks(jobs1, 16)) for r in shard]
     res1 = dict(zip([id(j) for shard in common.chunks(jobs1, 16) for j in shard], res1))
     totals, firstlen = {}, {}
@@ -652,7 +710,7 @@ def run(chk) -> None:
     all_jobs = [(j, res1[id(j)]) for j in jobs1 if j["mode"] not in ("memory", "conflict", "repatch")] + list(zip(order2, res2_flat))
     lines = []
     for j, r in all_jobs:
-        h = ";".join(j["hist"])
+        h = _mh(j["hist"])
         if j["mode"] in ("clean", "raise", "killend", "raise-inside"):
             lines.append("\t".join(["crash", "run", h, "-"]))
         elif j["mode"] == "kill":
@@ -734,9 +792,10 @@ def _check_conflict(chk, job, r, rep) -> None:
 
 
 def _check_memory(chk, job, r) -> None:
-    case = {"kind": "memory", "hist": job["hist"]}
-    chk.case(("memory", tuple(job["hist"])), nontrivial=True)
-    chk.count("mode:memory")
+    form = job.get("form", "none")
+    case = {"kind": "memory", "hist": job["hist"], "form": form}
+    chk.case(("memory", form, tuple(job["hist"])), nontrivial=True)
+    chk.count("mode:memory:" + form)
     if "err" in r:
         raise common.Infra(f"in-memory child failed: {r['err']}")
     bad = []
@@ -744,12 +803,20 @@ def _check_memory(chk, job, r) -> None:
         bad.append("the instance does not see its own tables")
     if r["other_simultaneous"]:
         bad.append(f"a second in-memory instance sees {r['other_simultaneous']}")
-    if r["later_patch"]:
+    if r.get("storage"):
+        if r["later_patch"] != r["first"]:
+            bad.append(f"a later patch() given the absolute path of the same directory sees {r['later_patch']}, the first one had {r['first']}")
+        if r.get("data_files") != ["DB1.db"]:
+            bad.append(f"database files in the directory: {r.get('data_files')}, expected ['DB1.db']")
+    elif r["later_patch"]:
         bad.append(f"a later in-memory patch() sees {r['later_patch']}")
     if r["cwd_files"] or r["tmp_files"]:
-        bad.append(f"files were written: cwd={r['cwd_files']} tmp={r['tmp_files']}")
+        bad.append(f"files were written outside db_path: cwd={r['cwd_files']} tmp={r['tmp_files']}")
     if bad:
-        chk.violation(f"in-memory instance running {job['hist']}: " + "; ".join(bad), case, broken="C18_memory_isolated")
+        how = {"none": "patch()", "nonearg": "patch(db_path=None)", "empty": 'patch(db_path="")', "rel": 'patch(db_path="data") (relative)',
+               "pathobj": 'patch(db_path=Path("data"))', "slash": 'patch(db_path="data/")'}[form]
+        chk.violation(f"{how} with the working directory set to a fresh directory, running {job['hist']}: " + "; ".join(bad), case,
+                      broken="C18_memory_isolated")
 
 
 def _check_point(chk, job, r, rep) -> None:
@@ -836,13 +903,14 @@ def replay(chk, case) -> None:
         _check_conflict(chk, job, r, rep)
         return
     if case["kind"] == "memory":
-        _check_memory(chk, {"hist": case["hist"], "mode": "memory"}, _run_memory({"hist": case["hist"]}))
+        job = {"hist": case["hist"], "mode": "memory", "form": case.get("form", "none")}
+        _check_memory(chk, job, _run_memory(job))
         return
     job = {"hist": case["hist"], "kill": case.get("kill"), "mode": case["kind"], "schema_opt": case.get("schema_opt", False)}
     if case.get("hist2"):
         job["hist2"], job["kill2"] = case["hist2"], None
     r = _run_point(job)
-    h = ";".join(job["hist"])
+    h = _mh(job["hist"])
     if job["mode"] in ("clean", "raise"):
         line = "\t".join(["crash", "run", h, "-"])
     elif job["mode"] == "kill":
